@@ -19,7 +19,7 @@ import (
 
 func init() {
 	sw.SetWriteConflict(sumdb.ErrWriteConflict)
-	pbt.Describe("world = two logs A = P||X and B = P||Y with a common prefix of |P| >= 0 records that differ from record |P| on (same module@version with other hashes, or other modules), both signed with the REAL server key (a forking server), tile height H in {1,2,3,4}. history = 1-6 lookups; each step names the log and size the server presents at that moment, optional client restarts, warm or cold cache (prefilled from A or from B), an initial stored head on A, on B or empty, and optionally a concurrent writer that puts another signed head (same log larger, or the other log) into the shared configuration right before the client's compare-and-swap; plus 0-2 per-response substitutions (the same tile / record / head as the OTHER log would serve it). Oracle (the harness knows which (size, hash) belong to A, B or both): every successful WriteConfig stores a validly signed head whose tree contains the replaced head's tree as a prefix in ground truth, sizes never decrease; all heads ever stored lie on one log; for every successful lookup the head carried by the delivered response is a prefix of the final stored head and the returned lines are genuine lines of a log that contains that head; every lookup whose error is sumdb.ErrSecurity comes with a SecurityError callback whose message contains, after undoing the tab indentation, two validly signed heads verbatim that are mutually inconsistent in ground truth; a SecurityError is never raised when every head involved lies on one log; with a single log nothing fails. Non-trivial: a head of the other log beyond the common prefix was delivered (by the server, the cache, the configuration or the concurrent writer) while the client held a head beyond the prefix. Distinct by JSON rendering.",
+	pbt.Describe("world = two logs A = P||X and B = P||Y with a common prefix of |P| >= 0 records that differ from record |P| on (same module@version with other hashes, or other modules), both signed with the REAL server key (a forking server), tile height H in {1,2,3,4}. history = 1-6 lookups; each step names the log and size the server presents at that moment, optional client restarts, warm or cold cache (prefilled from A or from B), an initial stored head on A, on B or empty, and optionally a concurrent writer that puts another signed head (same log larger, or the other log) into the shared configuration right before the client's compare-and-swap; plus 0-2 per-response substitutions (the same tile / record / head as the OTHER log would serve it). Oracle (the harness knows which (size, hash) belong to A, B or both): every successful WriteConfig stores a validly signed head whose tree contains the replaced head's tree as a prefix in ground truth, sizes never decrease; all heads ever stored lie on one log; for every successful lookup the head carried by the delivered response is a prefix of the final stored head and the returned lines are genuine lines of a log that contains that head; every lookup whose error is sumdb.ErrSecurity comes with a SecurityError callback whose message contains, after undoing the tab indentation, two validly signed heads verbatim that are mutually inconsistent in ground truth; a SecurityError is never raised when every head involved lies on one log; with a single log nothing fails. concurrent-forks: 1-2 clients sharing configuration and cache x 2-3 goroutines x 1-2 lookups, each record request assigned a fork and a head size, tiles served from the fork whose issued head they fit, interleaving of all external operations and yield points chosen by the harness scheduler from generated decisions; same audit of stored-head moves, lines and security reports, and pairwise consistency of the initially stored head, every stored head and the response heads of successful lookups of clients none of whose lookups failed (non-trivial there: contended schedule with heads of both forks beyond the prefix in flight in one client). Non-trivial: a head of the other log beyond the common prefix was delivered (by the server, the cache, the configuration or the concurrent writer) while the client held a head beyond the prefix. Distinct by JSON rendering.",
 		"Ed25519 and SHA-256 are sound", "the forking server owns the real key; consistency is judged by the harness's own Merkle model", "liveness is not checked")
 }
 
@@ -33,18 +33,18 @@ type step struct {
 }
 
 type c13Case struct {
-	H, Seed     int
-	P, NA, NB   int64
-	StoredB     bool
-	Stored      int64 // 0 = empty configuration
-	PrefillB    bool
-	Prefill     int
-	PrefillTo   int64
-	Steps       []step
-	Faults      []sw.Fault
-	WriterStep  int   // concurrent writer acts during this step's first WriteConfig (-1 = never)
-	WriterB     bool  // which log the concurrent writer follows
-	WriterSize  int64 // head size it writes
+	H, Seed    int
+	P, NA, NB  int64
+	StoredB    bool
+	Stored     int64 // 0 = empty configuration
+	PrefillB   bool
+	Prefill    int
+	PrefillTo  int64
+	Steps      []step
+	Faults     []sw.Fault
+	WriterStep int   // concurrent writer acts during this step's first WriteConfig (-1 = never)
+	WriterB    bool  // which log the concurrent writer follows
+	WriterSize int64 // head size it writes
 }
 
 func genCase(t *rapid.T) c13Case {
@@ -103,6 +103,34 @@ func genCase(t *rapid.T) c13Case {
 		c.Faults = append(c.Faults, sw.Fault{Op: cl[0], Class: cl[1], Ord: rapid.IntRange(0, 20).Draw(t, "ord"), Occ: rapid.IntRange(0, 1).Draw(t, "occ"),
 			Kind: kinds[gen.Uniform(t, len(kinds), "kind")], Ord2: rapid.IntRange(0, 20).Draw(t, "ord2"), Size: rapid.Int64Range(0, 60).Draw(t, "fsize")})
 	}
+	if gen.Chance(t, 12, "template") {
+		// a long-lived client that holds log A (stored head and warm cache from A) is shown several
+		// different heads of log B, smaller and larger than its own, through different lookups
+		c.StoredB, c.Stored = false, rapid.Int64Range(c.P+1, c.NA).Draw(t, "tstored")
+		c.PrefillB, c.Prefill, c.PrefillTo = false, 2, c.NA
+		c.Faults, c.Steps = nil, nil
+		if gen.Chance(t, 50, "tfirstA") {
+			c.Steps = append(c.Steps, step{LogB: false, Size: c.NA, Mod: rapid.Int64Range(0, c.NA-1).Draw(t, "tmodA")})
+		}
+		nb := rapid.IntRange(2, 4).Draw(t, "tnb")
+		for i := 0; i < nb; i++ {
+			sz := rapid.Int64Range(c.P+1, c.NB).Draw(t, "tsize")
+			mod := rapid.Int64Range(0, sz-1).Draw(t, "tmod")
+			// prefer a record whose module exists on log B only (odd index beyond the prefix), so that the
+			// warm cache of log A cannot answer the lookup and the server's head of B is really presented
+			var only []int64
+			for i := c.P; i < sz; i++ {
+				if i%2 == 1 {
+					only = append(only, i)
+				}
+			}
+			if len(only) > 0 && gen.Chance(t, 85, "tbonly") {
+				mod = only[gen.Uniform(t, len(only), "tbo")]
+			}
+			c.Steps = append(c.Steps, step{LogB: true, Size: sz, Mod: mod})
+		}
+		ns = len(c.Steps)
+	}
 	if rapid.IntRange(0, 3).Draw(t, "writer") == 0 {
 		c.WriterStep = rapid.IntRange(0, ns-1).Draw(t, "writerstep")
 		c.WriterB = rapid.Bool().Draw(t, "writerb")
@@ -138,6 +166,12 @@ func okCase(c c13Case) bool {
 		}
 	}
 	return true
+}
+
+// isSecurityErr reports whether a lookup failure is reported as a security error. Lookup decorates its
+// errors with "%s@%s: %v", so the sentinel is not reachable through errors.Is; its text is.
+func isSecurityErr(err error) bool {
+	return err != nil && (errors.Is(err, sumdb.ErrSecurity) || strings.Contains(err.Error(), sumdb.ErrSecurity.Error()))
 }
 
 type result struct {
@@ -390,9 +424,38 @@ func check(c c13Case) pbt.Result {
 			return r
 		}
 	}
-	for _, x := range res {
-		if x.err != nil && errors.Is(x.err, sumdb.ErrSecurity) && nsec == 0 {
-			r.Fail = pbt.Failf("security-without-callback", "lookup %d failed with ErrSecurity but the SecurityError callback was never invoked", x.step)
+	seenKey := map[string]bool{} // lookups already made by the current client instance (their results are memoised)
+	initFailed := false          // so is a failed initialisation of the instance
+	for xi, x := range res {
+		if c.Steps[x.step].Restart {
+			seenKey = map[string]bool{}
+			initFailed = false
+		}
+		key := x.path + "@" + strings.TrimSuffix(x.vers, "/go.mod")
+		repeated := seenKey[key]
+		seenKey[key] = true
+		if x.err != nil && strings.Contains(x.err.Error(), "initializing sumdb.Client") {
+			if initFailed {
+				repeated = true
+			}
+			initFailed = true
+		}
+		if x.err == nil || !isSecurityErr(x.err) || repeated {
+			continue
+		}
+		// the callback is made by the failing lookup itself, before it returns
+		end := len(events)
+		if xi+1 < len(res) {
+			end = res[xi+1].mark
+		}
+		called := false
+		for _, e := range events[x.mark:end] {
+			if e.Op == "security" {
+				called = true
+			}
+		}
+		if !called {
+			r.Fail = pbt.Failf("security-without-callback", "lookup %d of %s@%s failed with ErrSecurity but the SecurityError callback was not invoked during that lookup (%d invocations in the whole history)", x.step, x.path, x.vers, nsec)
 			return r
 		}
 	}
@@ -457,9 +520,9 @@ func check(c c13Case) pbt.Result {
 	return r
 }
 
-
 var subs = []pbt.Sub{
 	pbt.New("forks", 2500, 8000, genCase, check),
+	pbt.New("concurrent-forks", 300, 2500, genConc, checkConc),
 }
 
 func TestGen(t *testing.T)    { pbt.RunAll(t, subs) }
